@@ -322,3 +322,24 @@ __CPROVER_ensures(RET == g_grant) /*@ C08 "the queue's answer (granted or refuse
     harness='  LG* l; size_t n; LG__prepare_write_buffer(l, n);',
     dropped=['the queue union / template queue type as one queue object per thread context'], trusted=['the queues\' prepare_write by units BQ.prepare_write / UQ.prepare_write'], min_obligations=3)
 UNITS += [prepare_wb]
+
+# ------------------------------------------------------------------------------------------ LoggerBase::set_log_level
+SL_PRELUDE = ENUMS + r'''
+typedef struct LBs { LogLevel log_level; } LBs;
+#define ATOMIC_STORE_log_level(s, v, mo) ((s)->log_level = (v))
+'''
+set_level = dict(
+    name='LB.set_log_level', primary='C16', props={'C16'}, kind='L',
+    desc='LoggerBase::set_log_level: the new threshold is stored exactly as given (the next level check on any thread uses it); the internal Backtrace level is refused and changes nothing',
+    structs=[], prelude=SL_PRELUDE, enforce='LB_set_log_level', replace=[],
+    funcs=[dict(src=dict(header=BH, cls='LoggerBase', name='set_log_level'), src_params=['new_log_level'], cfun='LB_set_log_level', sig='void LB_set_log_level(LBs* self, LogLevel new_log_level)', cls_c='LB',
+                member_fields=['log_level'], atomics=['log_level'], exceptions=True, may_throw=[],
+                pre_rules=[ENUM_RULES[1], (r'throw\s*\(?\s*QuillError\s*\{.*?\}\s*\)?\s*;', 'throw(QuillError{"x"});'), (r'__builtin_expect\((.*?),\s*[01]\)', r'(\1)', '?')],
+                contract=r'''
+__CPROVER_requires(__CPROVER_is_fresh(self, sizeof(*self)) && g_exc == 0 && new_log_level <= LL_Dynamic)
+__CPROVER_assigns(self->log_level, g_exc)
+__CPROVER_ensures(new_log_level != LL_Backtrace ==> (g_exc == 0 && self->log_level == new_log_level)) /*@ C16 "a level change takes effect as given: statements are enqueued iff at or above the logger's level at the moment of the call" */
+__CPROVER_ensures(new_log_level == LL_Backtrace ==> (g_exc == EXC_STD && self->log_level == OLD(self->log_level))) /*@ C16 "the internal Backtrace level is refused and the threshold keeps its value" */
+''')],
+    harness='  LBs* l; LogLevel n; LB_set_log_level(l, n);', dropped=['std::atomic<LogLevel> store as a plain store (sequentially consistent view)'], trusted=[], min_obligations=4)
+UNITS += [set_level]
